@@ -141,7 +141,7 @@ KEYS = [b"k", "k", b"", "", b" ", b"a b", b"a\r\nb", b"a\nget x", b"a\r\nset inj
         b"x" * 249, b"x" * 250, b"x" * 251, b"\tk", b"k\x0b", "k\x0c", b"noreply", b"get", b"0"]
 VALUES = [b"v", b"", b"\r\n", b"END\r\n", b"x\r\nset inj 0 0 1\r\ny\r\n", "str", "\xe9", 5, -5, True, b"VALUE k 0 1\r\nz\r\nEND\r\n", b"x" * 5000]
 EXPIRES = [0, 1, -1, 2 ** 63 - 1, -2 ** 63, True, False, "5", 5.0, None, b"5"]
-FLAGS = [None, 0, 7, 2 ** 32 - 1, True, "7", "0 0 1\r\nx\r\nset inj 0 0 1", b"7", 1.5]
+FLAGS = [None, 0, 7, 2 ** 32 - 1, True, "7", "0 0 1\r\nx\r\nset inj 0 0 1", b"7", 1.5, False, "", b"", 0.0, [], ()]
 CASES = [b"123", 123, "123", b"12 3", b"1\r\n", "١٢", "１２３", "²", "1٢3", -1, True, b"", b"007", None, "1 noreply"]
 DELTAS = [1, 0, 2 ** 64 - 1, True, "1", 1.0, None, b"1"]
 PREFIXES = [b"", b"p:", b"p ", b"y" * 248, b"\r\n"]
@@ -170,7 +170,9 @@ def grid(ctx):
             out += [(c, (0, 0, b"k", b"v", e, None, None)), (c, (13, b"k", e, None)), (c, (5, b"k", e, None)), (c, (6, b"k", e, None, None)),
                     (c, (1, [(b"a", b"1")], e, None, None)), (c, (2, b"k", b"v", b"1", e, False, None))]
         for f in FLAGS:
-            out += [(c, (0, 0, b"k", b"v", 0, False, f)), (c, (1, [(b"a", b"1"), (b"b", b"2")], 0, False, f)), (c, (2, b"k", b"v", b"1", 0, False, f))]
+            must += [(c, (0, 0, b"k", b"v", 0, False, f)), (c, (1, [(b"a", b"1"), (b"b", b"2")], 0, False, f)), (c, (2, b"k", b"v", b"1", 0, False, f)),
+                     # values for which a serializer produces non-zero flags of its own: an explicit flags argument, 0 included, replaces them
+                     (c, (0, 0, b"k", "text", 0, False, f)), (c, (0, 1, b"k", 5, 0, None, f)), (c, (1, [(b"a", "t"), (b"b", 7)], 0, False, f))]
         for x in CASES:
             must.append((c, (2, b"k", b"v", x, 0, False, None)))
         for d in DELTAS:
